@@ -122,6 +122,10 @@ def rand_scenario(rng, **bias):
             c["update"] = [c["update"][0], 30]
     if sc["pre"] is not None and sc["pre"][0] == "PermFail" and rng.random() < 0.5:
         sc["pre_nonbool"] = rng.choice(["='false'", "=7", "=inputs.name", "=[true]"])
+    elif sc["pre"] is not None and rng.random() < 0.6:
+        sc["pre_tail"] = [rng.choice(sorted(TAIL_STOPS) + ["ok", "ok"]) for _ in range(rng.choice([1, 1, 2]))]
+    elif sc["pre"] is None and rng.random() < 0.05:
+        sc["pre_ok_first"] = True
     # template
     r = rng.random()
     if r < 0.6:
@@ -200,6 +204,9 @@ def _stop_pred(stop, label):
     return {"assert": "=false", "depSkip": {"message": label}}
 
 
+TAIL_STOPS = {"Skip": ["Skip"], "DepSkip": ["DepSkip"], "Retry": ["Retry", 3], "PermFail": ["PermFail"]}
+
+
 def _realise_odoc(d, vals: list, path: str):
     if d[0] == "L":
         _, v, computed = d
@@ -240,6 +247,12 @@ def realise(sc) -> Real:
                                      {"assert": sc["pre_nonbool"], "retry": {"message": "nonbool", "delay": 7}}]
         else:
             spec["preconditions"] = [{"assert": "=true", "permFail": {"message": "never"}}, _stop_pred(sc["pre"], "pre")]
+        # further predicates that ALSO fail: only the first failing one counts (the model does not see these)
+        for k in sc.get("pre_tail") or []:
+            spec["preconditions"].append({"assert": "=false", "ok": {}} if k == "ok" else _stop_pred(TAIL_STOPS[k], "tail-" + k))
+    elif sc.get("pre_ok_first"):
+        # the first failing predicate is of type `ok`: evaluation ends there and the preconditions PASS
+        spec["preconditions"] = [{"assert": "=false", "ok": {}}, {"assert": "=false", "permFail": {"message": "after-ok"}}]
     if sc["locals_err"]:
         spec["locals"] = {"bad": "=1/0"}
     t = sc["template"]
